@@ -152,3 +152,66 @@ def writer_before_backlog(k: Kit, rule: str) -> None:
                   'target is installed: data and EOF released by the flush '
                   'bypass the target and the channel stays paused',
                   k.loc(fi, n), g.describe_path(w) if w else None)
+
+
+INBOUND_STATES = {
+    # handler: receive states in which the message is legal; after the
+    # peer's EOF it sends no more data, but adjusts our send window, makes
+    # requests (exit-status) and closes
+    '_process_window_adjust': {'open', 'eof_pending', 'eof'},
+    '_process_data': {'open'},
+    '_process_extended_data': {'open'},
+    '_process_eof': {'open'},
+    '_process_close': {'open', 'eof_pending', 'eof'},
+    '_process_request': {'open', 'eof_pending', 'eof'},
+}
+
+
+def inbound_state_table(k: Kit, rule: str, only=None) -> None:
+    """Each inbound channel message handler, evaluated up to its first read
+    of the packet for every receive state: accepted exactly in the states of
+    INBOUND_STATES, a protocol error in the others."""
+    from ..absint import evaluate, Obj, NotEvaluable
+    rep = k.rep
+    idx = k.idx
+    n = 0
+    for name, legal in INBOUND_STATES.items():
+        if only and name not in only:
+            continue
+        fi = k.func('channel.SSHChannel.' + name)
+        frag = []
+        for st in fi.node.body:
+            if isinstance(st, ast.Expr) and isinstance(st.value, ast.Constant):
+                continue
+            frag.append(st)
+            if isinstance(st, ast.If) and \
+                    'self._recv_state' in names_read(st.test):
+                break
+        bad = None
+        for state in ('open', 'eof_pending', 'eof', 'close_pending',
+                      'closed'):
+            n += 1
+            try:
+                o = evaluate(idx, fi.module, frag,
+                             {'self._recv_state': state},
+                             {'packet': Obj('packet')},
+                             lambda a, b, e: Obj('x'))
+            except NotEvaluable as exc:
+                rep.error(rule, key(fi, 'not-evaluable'), str(exc))
+                bad = 'error'
+                break
+            accepted = o.kind != 'raise'
+            if accepted != (state in legal):
+                bad = bad or (
+                    f'{name[9:].upper()} in receive state {state!r} is '
+                    + ('accepted' if accepted else
+                       'a protocol error, which disconnects the whole '
+                       'connection: after a half-close the first '
+                       'WINDOW_ADJUST / request / CLOSE for the still-open '
+                       'direction kills every channel and forward on it'))
+        if bad == 'error':
+            continue
+        rep.check(bad is None, rule, key(fi, 'legal receive states'),
+                  f'accepted exactly in {sorted(legal)}', str(bad),
+                  fi.loc(fi.node))
+    rep.floor(rule, 'inbound handler states', n, 5)
